@@ -21,6 +21,8 @@ pub struct Case {
 #[derive(Debug, Default)]
 pub struct Info {
     pub deep_fork_seen: bool,
+    /// footprint of finding F47 seen in the node's utxoset (see observe::phantom_rebroadcast_input)
+    pub phantom_seen: Option<String>,
     pub blocks_checked: usize,
     pub fee_txs: usize,
     pub payouts: usize,
@@ -114,6 +116,9 @@ fn run_case_inner(case: &Case) -> (Vec<(String, String)>, Info) {
             }
         }
         let outs = d.deliver(b);
+        if info.phantom_seen.is_none() {
+            info.phantom_seen = crate::observe::phantom_rebroadcast_input(&d.node.chain);
+        }
         for o in &outs {
             match &o.outcome {
                 StepOutcome::Panicked(site, msg) => {
@@ -200,6 +205,15 @@ fn run_case_inner(case: &Case) -> (Vec<(String, String)>, Info) {
 
 pub fn run_case(case: &Case) -> (Vec<(String, String)>, Info) {
     let (mut v, info) = run_case_inner(case);
+    if let (Some(ph), false) = (&info.phantom_seen, info.deep_fork_seen) {
+        // finding F47: unwinding a block whose rebroadcasts carried a treasury payout (multiplier > 1)
+        // re-inserts their payout-adjusted inputs - keys that never were outputs - as spendable; the
+        // node's own supply check counts them next to the originals and aborts
+        for x in v.iter_mut() {
+            x.1 = format!("{} [{}; {}]", x.1, x.0, ph);
+            x.0 = "C02|unwound_rebroadcast_leaves_payout_adjusted_input".into();
+        }
+    }
     if info.deep_fork_seen {
         // finding F42: a branch that leaves the chain more than a genesis period below the tip is
         // wound without utxo validation (the node takes its supply for 'not loaded' once the unwind
